@@ -228,6 +228,7 @@ type IniRun struct {
 }
 
 func RunIniRead(d *Decl, text string, asDefaults bool) *IniRun {
+	defer guardCall("IniParser.Parse")()
 	r := &IniRun{}
 	if pm := Safely(func() { r.B = Build(d) }); pm != "" {
 		r.Panic = "setup: " + pm
